@@ -4,6 +4,7 @@ import (
 	"bufio"
 	"bytes"
 	"encoding/binary"
+	"encoding/json"
 	"fmt"
 	"hash/fnv"
 	"math"
@@ -198,6 +199,7 @@ func (c *child) count(k string) { c.ctr[k]++ }
 // budget.  Cheap violations never stop a batch, so a known finding does not reduce coverage.
 func (c *child) costly() {
 	c.nCostly++
+	c.flush(false) // the count survives a later death (childMain reads it back)
 	if c.nCostly >= 8 {
 		c.count("batch_stopped_after_costly_violations")
 		c.flush(true)
@@ -222,7 +224,7 @@ func (c *child) violation(key, what string, extra map[string]interface{}) {
 func (c *child) flush(final bool) {
 	c.fp.Flush()
 	proc.AppendJSONLine(c.out, map[string]interface{}{"t": "ctr", "inc": c.inc, "final": final, "evals": c.evals, "counters": c.ctr,
-		"max_alloc": c.maxAlloc, "max_amp": c.maxAmp, "viol_counts": c.violSeen, "next": c.idx, "secs": c.secs})
+		"max_alloc": c.maxAlloc, "max_amp": c.maxAmp, "viol_counts": c.violSeen, "next": c.idx, "secs": c.secs, "costly": c.nCostly})
 }
 
 // run is the single entry point for a hostile case: log first, then execute.
@@ -744,6 +746,17 @@ func childMain(specStr string) {
 		fmt.Fprintln(os.Stderr, err)
 		os.Exit(96)
 	}
+	// costly violations of earlier incarnations of this batch count towards the early stop
+	prevCostly := 0
+	proc.ReadJSONLines(fmt.Sprintf("%s/b%d.out", dir, bi), func(raw json.RawMessage) {
+		var ln struct {
+			T      string `json:"t"`
+			Costly int    `json:"costly"`
+		}
+		if json.Unmarshal(raw, &ln) == nil && ln.T == "ctr" && ln.Costly > prevCostly {
+			prevCostly = ln.Costly
+		}
+	})
 	out, err := os.OpenFile(fmt.Sprintf("%s/b%d.out", dir, bi), os.O_CREATE|os.O_WRONLY|os.O_APPEND, 0o644)
 	if err != nil {
 		fmt.Fprintln(os.Stderr, err)
@@ -755,7 +768,7 @@ func childMain(specStr string) {
 		os.Exit(96)
 	}
 	c := &child{batch: b, log: lg, out: out, fpFile: fpf, fp: bufio.NewWriterSize(fpf, 1<<16), start: start, inc: inc,
-		ctr: map[string]int64{}, violSeen: map[string]int{}, seen: map[uint64]struct{}{}}
+		ctr: map[string]int64{}, violSeen: map[string]int{}, seen: map[uint64]struct{}{}, nCostly: prevCostly}
 	// the parts of one (type, round) must build the same seed values: their position scans
 	// partition the positions of one payload
 	rng := vf.NewRNG(vf.Seed()).Sub(0xC24000 + uint64(bi))
@@ -767,6 +780,11 @@ func childMain(specStr string) {
 			}
 		}
 		rng = vf.NewRNG(vf.Seed()).Sub(0xC25000 + uint64(b.Round)*64 + uint64(ti))
+	}
+	if c.nCostly >= 8 {
+		c.count("batch_stopped_after_costly_violations")
+		c.flush(true)
+		os.Exit(0)
 	}
 	t0 := time.Now()
 	if pf := os.Getenv("C24_PROF"); pf != "" {
